@@ -28,6 +28,8 @@ func propC04() Property {
 			{ID: "C04-R6", Desc: "every freshly created recovery state owns an allocated stash", Min: 1, Run: c04R6},
 			{ID: "C04-R7", Desc: "the expected number advances only for a message that carries it (= C01-R2)", Min: 4, Run: c01R2},
 			{ID: "C04-R8", Desc: "the recovery state is returned only when the ResendRequest was sent", Min: 1, Run: c04R8},
+			{ID: "C04-R12", Desc: "every inbound message is parsed into a message of its own", Min: 2, Run: c04R12},
+			{ID: "C04-R11", Desc: "a recovery does not outlive the store epoch it was started in", Min: 3, Run: c04R11},
 			{ID: "C04-R10", Desc: "the recovery state is kept only while the requested range is open", Min: 1, Run: c04R10},
 			{ID: "C04-R9", Desc: "handlers read each field from the section the parser files it in (= C11-R7)", Min: 20, Run: sectionAccessRule},
 		},
